@@ -222,8 +222,10 @@ class CellCycleController:
         lock = ctx.acquired_resources[resource_id]
         released = lock.release(owner=ctx.operation_id)
 
-        if released:
+        if released and lock.owner != ctx.operation_id:
+            # (a reentrantly held lock stays tracked until its last release)
             del ctx.acquired_resources[resource_id]
+        if released:
             self.dependency_graph.remove_all_for_agent(ctx.operation_id)
 
         return released
